@@ -41,18 +41,35 @@ from ..interpolatableFunction import InterpolatableFunction, inputType, outputTy
 
 
 def _integrator(
-    func: typing.Callable, a: float, b: float
+    func: typing.Callable,
+    a: float,
+    b: float,
+    points: np.ndarray | None = None,
 ) -> float:
     """
-    Simple wrapper for scipy.integrate.quad with defaults inbuilt
+    Simple wrapper for scipy.integrate.quad with defaults inbuilt. Singular points of
+    the integrand inside a finite interval [a, b] can be given in points.
     """
     res = scipy.integrate.quad(
         func,
         a,
         b,
         limit=100,
+        points=points,
     )
     return float(res[0])
+
+
+def _singularPoints(x: float, first: float) -> np.ndarray | None:
+    """
+    For x < 0, positions 0 < y < sqrt(-x) where sqrt(-y^2 - x) equals first + 2*pi*k,
+    k = 0, 1, ... These are the singularities of the integrands for negative x
+    (first = 2*pi for bosons, pi for fermions).
+    """
+    roots = np.arange(first, np.sqrt(-x), 2 * np.pi)
+    if len(roots) == 0:
+        return None
+    return np.sqrt(-x - roots**2)
 
 
 class JbIntegral(InterpolatableFunction):
@@ -146,7 +163,8 @@ class JbIntegral(InterpolatableFunction):
                     _integrator(
                         lambda y: JbIntegral._integrandNegativeReal(xWrapper, y),
                         0.0,
-                        np.sqrt(np.abs(xWrapper))
+                        np.sqrt(np.abs(xWrapper)),
+                        _singularPoints(xWrapper, 2 * np.pi),
                     )
                     + _integrator(
                         lambda y: JbIntegral._integrandPositiveReal(xWrapper, y),
@@ -157,7 +175,8 @@ class JbIntegral(InterpolatableFunction):
                 resImag = _integrator(
                     lambda y: JbIntegral._integrandNegativeImaginary(xWrapper, y),
                     0.0,
-                    np.sqrt(np.abs(xWrapper))
+                    np.sqrt(np.abs(xWrapper)),
+                    _singularPoints(xWrapper, 2 * np.pi),
                 )
 
             return complex(resReal + 1j * resImag)
@@ -263,7 +282,8 @@ class JfIntegral(InterpolatableFunction):
                     _integrator(
                         lambda y: JfIntegral._integrandNegativeReal(xWrapper, y),
                         0.0,
-                        np.sqrt(np.abs(xWrapper))
+                        np.sqrt(np.abs(xWrapper)),
+                        _singularPoints(xWrapper, np.pi),
                     )
                     + _integrator(
                         lambda y: JfIntegral._integrandPositiveReal(xWrapper, y),
@@ -274,7 +294,8 @@ class JfIntegral(InterpolatableFunction):
                 resImag = _integrator(
                     lambda y: JfIntegral._integrandNegativeImaginary(xWrapper, y),
                     0.0,
-                    np.sqrt(np.abs(xWrapper))
+                    np.sqrt(np.abs(xWrapper)),
+                    _singularPoints(xWrapper, np.pi),
                 )
 
             return complex(resReal + 1j * resImag)
